@@ -130,7 +130,7 @@ def coherent_dedispersion(z, DM, /, *, ref_freq=None, chirp=None):
     start = math.ceil(-min(0, delay_top, delay_bot))
     stop = x.shape[0] - math.ceil(+max(0, delay_top, delay_bot))
 
-    return type(z).like(z, x)[start:stop]
+    return type(z).like(z, x)[start : max(start, stop)]
 
 
 def incoherent_dedispersion(z, DM, /, *, ref_freq=None):
